@@ -337,6 +337,8 @@ pub enum DataChange {
     ClearImage,
     /// toggle admin-ness of member (selector), never demoting the last admin
     ToggleAdmin(u16),
+    /// only some of the image fields (bit 0 hash, 1 key, 2 nonce, 3 upload key), the others stay
+    ImagePart(u8, u8),
 }
 
 #[derive(Clone, Debug, PartialEq, Eq, Hash, Serialize, Deserialize)]
@@ -450,6 +452,10 @@ pub enum Op {
         sel: u16,
         mutation: HostileMut,
     },
+    /// the stored rollback snapshots of client `m`'s group disappear behind its back - what a
+    /// second instance on the same database (an app extension pruning at start-up) does; the next
+    /// commit race at that client then runs into a rollback that fails
+    SnapshotsVanish { m: u16 },
     /// `n` application messages by one member in a row (so that deliveries can skip far ahead in
     /// the sender's ratchet)
     Burst { m: u16, n: u8 },
@@ -1355,6 +1361,32 @@ impl World {
                         upd.image_upload_key = Some(Some(derive("upload")));
                         what = format!("image-{n}");
                     }
+                    DataChange::ImagePart(part, n) => {
+                        let derive = |tag: &str| -> [u8; 32] {
+                            let mut h = Sha256::new();
+                            h.update(b"part");
+                            h.update(tag.as_bytes());
+                            h.update([*n]);
+                            h.update(self.dir.0.to_string_lossy().as_bytes());
+                            h.finalize().into()
+                        };
+                        let part = if part % 16 == 0 { 6 } else { part % 16 };
+                        if part & 1 != 0 {
+                            upd.image_hash = Some(Some(derive("hash")));
+                        }
+                        if part & 2 != 0 {
+                            upd.image_key = Some(Some(derive("key")));
+                        }
+                        if part & 4 != 0 {
+                            let mut nonce = [0u8; 12];
+                            nonce.copy_from_slice(&derive("nonce")[..12]);
+                            upd.image_nonce = Some(Some(nonce));
+                        }
+                        if part & 8 != 0 {
+                            upd.image_upload_key = Some(Some(derive("upload")));
+                        }
+                        what = format!("image-fields-{part:04b}-{n}");
+                    }
                     DataChange::ClearImage => {
                         upd.image_hash = Some(None);
                         what = "clear-image".into();
@@ -1763,6 +1795,43 @@ impl World {
                         self.deliver(v, idx, obs)?;
                     }
                 }
+            }
+            Op::SnapshotsVanish { m } => {
+                let Some(m) = self.member_sel(*m) else {
+                    return Ok(());
+                };
+                if self.clients[m].mdk.is_none() {
+                    return Ok(());
+                }
+                let far = Timestamp::now().as_secs() + 1_000_000;
+                let n = match (self.clients[m].kind, self.clients[m].db_path.clone()) {
+                    (BackendKind::Mem, _) => on_mdk!(self.clients[m].mdk(), mm => {
+                        use mdk_storage_traits::MdkStorageProvider;
+                        use openmls_traits::OpenMlsProvider;
+                        mm.provider.storage().prune_expired_snapshots(far).unwrap_or(0)
+                    }),
+                    (kind, Some(path)) => {
+                        // a second handle on the same file
+                        let second = match kind {
+                            BackendKind::Sql => MdkSqliteStorage::new_unencrypted(&path),
+                            BackendKind::SqlKey => MdkSqliteStorage::new_with_key(&path, mdk_sqlite_storage::EncryptionConfig::new(key_for_path(&path))),
+                            _ => {
+                                ensure_mock_keyring();
+                                MdkSqliteStorage::new(&path, KEYRING_SERVICE, &path.to_string_lossy())
+                            }
+                        };
+                        match second {
+                            Ok(st) => {
+                                use mdk_storage_traits::MdkStorageProvider;
+                                st.prune_expired_snapshots(far).unwrap_or(0)
+                            }
+                            Err(_) => 0,
+                        }
+                    }
+                    _ => 0,
+                };
+                self.note(format!("c{m}: {n} stored snapshot(s) pruned behind its back"));
+                self.count("op:snapshots-vanish");
             }
             Op::Burst { m, n } => {
                 let Some(who) = self.active_sel(*m) else {
